@@ -440,3 +440,41 @@ def resolve_captures(expr, closure_fn, copies=True):
             return e
         return tuple(rec(x) if isinstance(x, tuple) else x for x in e)
     return rec(expr)
+
+
+def decode_fmt_template(bs):
+    """Decode the byte template of `core::fmt::Arguments::new` (this nightly's format_args
+    lowering): a length byte < 0x80 followed by that many literal bytes; 0xC0 = `{}`; 0 = end.
+    Returns the list of pieces (literal strings and "{}")."""
+    out = []
+    i = 0
+    bs = list(bs)
+    while i < len(bs):
+        b = bs[i]
+        if b == 0:
+            break
+        if b < 0x80:
+            out.append(bytes(bs[i + 1:i + 1 + b]).decode("utf-8", "replace"))
+            i += 1 + b
+        elif b == 0xC0:
+            out.append("{}")
+            i += 1
+        else:
+            out.append("{?}")
+            i += 1
+    return out
+
+
+def format_templates(fn):
+    """Decoded templates of every format_args! in fn (and its closures)."""
+    out = []
+    for b in fn.all_bodies():
+        pv = Prov(b)
+        for bi, t, cal in b.calls():
+            if cal and cal.adt == "std::fmt::Arguments" and cal.name in ("new", "new_const", "new_v1", "from_str") and t["args"]:
+                e = pv.operand(t["args"][0])
+                if e[0] == "const" and isinstance(e[1], tuple) and e[1] and e[1][0] == "bytes":
+                    out.append(decode_fmt_template(e[1][1]))
+                elif e[0] == "const" and isinstance(e[1], str):
+                    out.append([e[1]])
+    return out
